@@ -305,6 +305,8 @@ def oracle_c03(case, obs, res, ref_obs):
     feats = interruption_features(obs)
     # every resume completes without error (RunEngineInterrupted = paused again is fine)
     for c in obs.calls:
+        if c.get("auto"):
+            continue  # the harness' own abort() of a plan left paused at the end of the history is not part of the property
         if c.get("outcome") == "raise" and not isinstance(c.get("exc"), RunEngineInterrupted):
             res.fail(
                 "resume_raises" if c["do"] == "resume" else "call_raises",
@@ -569,6 +571,14 @@ def _causes(case, obs):
     for e in obs.plog.events:
         if e["t"] == "except" and e.get("action") != "reraise" and isinstance(e.get("exc"), (RunEngineControlException, FailedPause)):
             causes.append(("ambiguous", None, e))
+    # a device hook that no plan message stands for (the removal / re-installation of monitor callbacks around a
+    # pause, a Pausable device's pause()/resume()) failed inside the engine: the exception is never offered to the
+    # plan, so it is not "a plan or device error [that] goes unhandled" by the plan in the sense of this oracle
+    for x in obs.world.raised:
+        op = str(x).split(".", 1)[-1].split("#", 1)[0]
+        if op in ("clear_sub", "subscribe", "pause", "resume") and x is not exc and x is not getattr(exc, "__cause__", None):
+            if not any(y.get("thrown") is x for y in obs.plog.yields):
+                causes.append(("ambiguous", None, x))
     return causes
 
 
@@ -610,6 +620,12 @@ def oracle_c02(case, obs, res):
             kw = last.kwargs
             if kw.get("reason") == "plan-said-so":
                 continue  # the plan chose the status itself
+            if kw.get("exit_status") == "fail" and cause != "error" and any(
+                e["t"] == "except" and e.get("action") != "reraise" and str(e.get("exc")) == kw.get("reason") for e in obs.plog.events
+            ):
+                # an exception passed through run_wrapper (which closed its run as failed) and was swallowed or
+                # transformed by an enclosing handler of the plan: unhandled inside the run, handled by the plan
+                continue
             if kw.get("exit_status") is None:
                 # plain close_run by the plan (documented default 'success'); only meaningful without a cause
                 if cause != "none":
